@@ -372,6 +372,34 @@ type VerifHeader struct {
 	LSN     uint64 `json:"lsn"`
 }
 
+// verifDecodeHeader reads the four header fields out of the first bytes of a data file with the package's own reader
+// (fileStore.open on a scratch file), so that the layout of the header is the package's business alone.
+func verifDecodeHeader(b []byte) (h VerifHeader, ok bool) {
+	if len(b) == 0 {
+		return h, false
+	}
+	if len(b) > pageSize {
+		b = b[:pageSize]
+	}
+	tmp, err := os.CreateTemp(".", "verif-hdr-*")
+	if err != nil {
+		return h, false
+	}
+	defer os.Remove(tmp.Name())
+	defer tmp.Close()
+	if _, err := tmp.Write(b); err != nil {
+		return h, false
+	}
+	if _, err := tmp.Seek(0, 0); err != nil {
+		return h, false
+	}
+	fs := &fileStore{file: tmp}
+	if err := fs.open(); err != nil {
+		return h, false
+	}
+	return VerifHeader{LastKey: fs.lastKey, PtRoot: int(fs.pageTableRoot / pageSize), Nx: int(fs.nextFreeOffset / pageSize), LSN: fs._nextLSN}, true
+}
+
 // VerifDumpFile decodes a data file (header + every page) without any cache.
 func VerifDumpFile(path string) (VerifHeader, []VerifPage, error) {
 	var h VerifHeader
@@ -379,11 +407,8 @@ func VerifDumpFile(path string) (VerifHeader, []VerifPage, error) {
 	if err != nil {
 		return h, nil, err
 	}
-	if len(b) >= 28 {
-		h.LastKey = binary.LittleEndian.Uint32(b[0:4])
-		h.PtRoot = int(binary.LittleEndian.Uint64(b[4:12]) / pageSize)
-		h.Nx = int(binary.LittleEndian.Uint64(b[12:20]) / pageSize)
-		h.LSN = binary.LittleEndian.Uint64(b[20:28])
+	if hd, ok := verifDecodeHeader(b); ok {
+		h = hd
 	}
 	var pages []VerifPage
 	for id := 1; id*pageSize < len(b); id++ {
@@ -464,8 +489,11 @@ func VerifDumpWal(path string) (recs []VerifWalRec, tail int, err error) {
 			break
 		}
 		body := b[4 : 4+l]
-		recs = append(recs, VerifWalRec{Op: int(body[0]), LSN: binary.LittleEndian.Uint64(body[1:9]),
-			Pg: int(binary.LittleEndian.Uint64(body[9:17]) / pageSize), Key: binary.LittleEndian.Uint32(body[17:21])})
+		var e WALEntry
+		if derr := e.decode(bytes.NewBuffer(append([]byte(nil), body...))); derr != nil {
+			break
+		}
+		recs = append(recs, VerifWalRec{Op: int(e.WALOp), LSN: e.LSN, Pg: int(e.pageID / pageSize), Key: e.cellID})
 		b = b[4+l:]
 	}
 	return recs, len(b), nil
